@@ -451,3 +451,75 @@ func addrKey(a string) int64 {
 	fmt.Sscanf(a, "%d.%d.%d.%d", &b[0], &b[1], &b[2], &b[3])
 	return b[0]<<24 | b[1]<<16 | b[2]<<8 | b[3]
 }
+
+// ---------------------------------------------------------------- C11: size of a single-route UPDATE
+
+func attrLen(valLen int) int {
+	if valLen > 255 {
+		return 4 + valLen
+	}
+	return 3 + valLen
+}
+
+// updateWireLen: octets of an UPDATE announcing one route with these attributes (RFC 4271 4.3).
+func updateWireLen(a *rAttrs, fam wFamily, as2, pathID bool) int {
+	n := 19 + 2 + 2
+	n += attrLen(1) // ORIGIN
+	w := 4
+	if as2 {
+		w = 2
+	}
+	pl := 0
+	as4 := false
+	for _, s := range a.ASPath {
+		pl += 2 + w*len(s.ASNs)
+		for _, x := range s.ASNs {
+			if x > 65535 {
+				as4 = true
+			}
+		}
+	}
+	n += attrLen(pl)
+	if as2 && as4 {
+		p4 := 0
+		for _, s := range a.ASPath {
+			p4 += 2 + 4*len(s.ASNs)
+		}
+		n += attrLen(p4)
+	}
+	if a.MED >= 0 {
+		n += attrLen(4)
+	}
+	if a.LocalPref >= 0 {
+		n += attrLen(4)
+	}
+	if a.AtomicAgg {
+		n += attrLen(0)
+	}
+	if len(a.Comms) > 0 {
+		n += attrLen(4 * len(a.Comms))
+	}
+	if a.Originator != "" {
+		n += attrLen(4)
+	}
+	if len(a.ClusterList) > 0 {
+		n += attrLen(4 * len(a.ClusterList))
+	}
+	if len(a.ExtComms) > 0 {
+		n += attrLen(8 * len(a.ExtComms))
+	}
+	for _, v := range a.Other {
+		n += attrLen((len(v) - 3) / 2)
+	}
+	pid := 0
+	if pathID {
+		pid = 4
+	}
+	if fam == famV4 {
+		n += attrLen(4)       // NEXT_HOP
+		n += pid + 1 + 3      // /24 NLRI
+	} else {
+		n += attrLen(2 + 1 + 1 + 16 + 1 + pid + 1 + 6) // MP_REACH: afi safi nhlen nh reserved nlri(/48)
+	}
+	return n
+}
